@@ -86,6 +86,21 @@ def _has_yield(node):
     return False
 
 
+def _loop_shaped(node):
+    """generator function whose body is (docstring +) one `while` loop ending in its only yield statement"""
+    body = list(node.body)
+    if body and isinstance(body[0], ast.Expr) and isinstance(body[0].value, ast.Constant) and isinstance(body[0].value.value, str):
+        body = body[1:]
+    if len(body) != 1 or not isinstance(body[0], ast.While) or body[0].orelse:
+        return False
+    last = body[0].body[-1]
+    if not (isinstance(last, ast.Expr) and isinstance(last.value, ast.Yield)):
+        return False
+    n = sum(1 for x in ast.walk(node) if isinstance(x, (ast.Yield, ast.YieldFrom)))
+    nret = sum(1 for x in ast.walk(node) if isinstance(x, (ast.Return, ast.Break, ast.Continue)))
+    return n == 1 and nret == 0
+
+
 def is_repo_fn(f):
     if not isinstance(f, types.FunctionType):
         return False
@@ -313,7 +328,10 @@ class Interp:
                     yield from self.gx_block(node.body, fr)
                 except ReturnSig:
                     return
-            return GenObj(body(), fr.name)
+            g = GenObj(body(), fr.name)
+            g.nyields = sum(1 for n in ast.walk(node) if isinstance(n, (ast.Yield, ast.YieldFrom)))
+            g.loop_shaped = _loop_shaped(node)
+            return g
         self.depth += 1
         if self.depth > 80:
             self.depth -= 1
@@ -758,6 +776,7 @@ class Interp:
     def gen_next(self, g):
         if g.done:
             py_raise(StopIteration)
+        g.started = True
         try:
             return next(g.it)
         except StopIteration:
@@ -807,8 +826,11 @@ class Interp:
         if hasattr(spec, 'variant'):
             v0 = spec.variant(self, fr, st8)
         if self.truth(self.eval(st.test, fr)):
+            st8.yields = []
             try:
-                yield from self.gx_block(st.body, fr)
+                for y in self.gx_block(st.body, fr):
+                    st8.yields.append(y)
+                    yield y
             except BreakSig:
                 return
             except ContinueSig:
@@ -841,8 +863,16 @@ class Interp:
             if not broke:
                 yield from self.gx_block(st.orelse, fr)
             return
-        # ---- cut loop over a sequence with symbolic length
         base = '%s#loop%d' % (fr.name, ordn)
+        if isinstance(it, Obj):
+            k, fn = mro_lookup(it.cls, '__iter__')
+            if fn is None:
+                py_raise(TypeError, '%r object is not iterable' % it.cls.__name__)
+            it = self.call(Bound(it, fn), [], {})
+        if isinstance(it, GenObj):
+            yield from self._for_generator_cut(st, fr, it, spec, base)
+            return
+        # ---- cut loop over a sequence with symbolic length
         seqv = spec.sequence(self, fr, it)              # SSeq being iterated
         n = z3.Length(seqv.e)
         st8 = spec.enter(self, fr, seqv)
@@ -855,8 +885,11 @@ class Interp:
         self.ctx.assume(spec.inv(self, fr, st8))
         if self.ctx.branch(i < n):
             self.assign(st.target, seqv.ek.wrap(seqv.e[i]), fr)
+            st8.yields = []
             try:
-                yield from self.gx_block(st.body, fr)
+                for y in self.gx_block(st.body, fr):
+                    st8.yields.append(y)     # values yielded by this (arbitrary) iteration: ghost output
+                    yield y
             except BreakSig:
                 st8.broke = True
                 return
@@ -868,6 +901,76 @@ class Interp:
                             hints=spec.hints(self, fr, st8, 'preserved'))
             raise CutPath()
         yield from self.gx_block(st.orelse, fr)
+
+    def _for_generator_cut(self, st, fr, gen, spec, base):
+        """`for x in <generator>` cut at an invariant.  The first iteration is executed as it is (peeled); the cut
+        is placed when the generator is suspended at its yield and the consumer is back at the loop head, so that
+        resuming the generator runs exactly one arbitrary further iteration.  Only sound for generators with a
+        single yield statement (checked)."""
+        if getattr(gen, 'nyields', None) != 1:
+            raise Unsupported('loop contract over a generator that does not have exactly one yield statement')
+        st8 = spec.enter(self, fr, None)
+        st8.gen = gen
+        if getattr(gen, 'loop_shaped', False) and not getattr(gen, 'started', False):
+            # generator body is `while c: ...; yield x`: resuming after the yield re-enters the loop test exactly
+            # like the first next() does, so the cut can be placed before the first iteration (no peeling)
+            self.ctx.oblige(base + '.inv-entry', spec.inv(self, fr, st8), kind='inv-entry', hints=spec.hints(self, fr, st8, 'entry'))
+            spec.havoc(self, fr, st8)
+            self.ctx.assume(spec.inv(self, fr, st8))
+            try:
+                v = self.gen_next(gen)
+            except PyRaise as pr:
+                if pr.cls is StopIteration:
+                    yield from self.gx_block(st.orelse, fr)
+                    return
+                raise
+            self.assign(st.target, v, fr)
+            try:
+                yield from self.gx_block(st.body, fr)
+            except BreakSig:
+                return
+            except ContinueSig:
+                pass
+            spec.step(self, fr, st8)
+            self.ctx.oblige(base + '.inv-preserved', spec.inv(self, fr, st8), kind='inv-preserved',
+                            hints=spec.hints(self, fr, st8, 'preserved'))
+            raise CutPath()
+        try:
+            v = self.gen_next(gen)
+        except PyRaise as pr:
+            if pr.cls is StopIteration:
+                yield from self.gx_block(st.orelse, fr)
+                return
+            raise
+        self.assign(st.target, v, fr)
+        try:
+            yield from self.gx_block(st.body, fr)
+        except BreakSig:
+            return
+        except ContinueSig:
+            pass
+        spec.step(self, fr, st8)
+        self.ctx.oblige(base + '.inv-entry', spec.inv(self, fr, st8), kind='inv-entry', hints=spec.hints(self, fr, st8, 'entry'))
+        spec.havoc(self, fr, st8)
+        self.ctx.assume(spec.inv(self, fr, st8))
+        try:
+            v = self.gen_next(gen)
+        except PyRaise as pr:
+            if pr.cls is StopIteration:
+                yield from self.gx_block(st.orelse, fr)
+                return
+            raise
+        self.assign(st.target, v, fr)
+        try:
+            yield from self.gx_block(st.body, fr)
+        except BreakSig:
+            return
+        except ContinueSig:
+            pass
+        spec.step(self, fr, st8)
+        self.ctx.oblige(base + '.inv-preserved', spec.inv(self, fr, st8), kind='inv-preserved',
+                        hints=spec.hints(self, fr, st8, 'preserved'))
+        raise CutPath()
 
     def iterate(self, it):
         """Python iteration protocol over a value whose length is concrete (or a generator)"""
